@@ -187,9 +187,13 @@ func peerSession(rec *recorder, h *vhandler, sp *peerSpec, c net.Conn, rep *vsup
 		buf := make([]byte, 32*1024)
 		total := 0
 		if sp.peerRead == "stall" {
+			wait := 300 * time.Millisecond
+			if sp.earlyFin {
+				wait = 20 * time.Second // (this one reads only once it has seen the engine close its end)
+			}
 			select {
 			case <-release:
-			case <-time.After(300 * time.Millisecond):
+			case <-time.After(wait):
 			}
 		}
 		for {
@@ -248,12 +252,14 @@ func peerSession(rec *recorder, h *vhandler, sp *peerSpec, c net.Conn, rep *vsup
 		if cw, ok := c.(interface{ CloseWrite() error }); ok {
 			_ = cw.CloseWrite()
 		}
-		// it does not read a byte until the engine has closed its end (POLLRDHUP needs no reading): an engine that
-		// waits for this peer to drain its answer before closing never gets there
+		// it does not read a byte for a while: either it sees the engine close its end (POLLRDHUP needs no reading; it
+		// only shows once everything in flight fits into this side's receive buffer), or, failing that, the loop that
+		// owns the connection must at least be alive: an engine that waits inside close() for this peer to drain its
+		// answer serves nobody else meanwhile
 		hup := false
 		if sc, ok := c.(syscall.Conn); ok {
 			if rc, err := sc.SyscallConn(); err == nil {
-				deadline := time.Now().Add(12 * time.Second)
+				deadline := time.Now().Add(1200 * time.Millisecond)
 				for !hup && time.Now().Before(deadline) {
 					_ = rc.Control(func(fd uintptr) {
 						pf := []unix.PollFd{{Fd: int32(fd), Events: unix.POLLRDHUP}}
@@ -267,8 +273,31 @@ func peerSession(rec *recorder, h *vhandler, sp *peerSpec, c net.Conn, rep *vsup
 		if hup {
 			rec.emit("PeerSawClose", "c", sp.id)
 		} else {
-			rec.emit("PeerNoClose", "c", sp.id)
-			rep.Violation("sys/close-stuck", fmt.Sprintf("connection %d: the peer half-closed while the answer was stuck behind a full socket and did not read; the engine had not closed its end 12 s later", sp.id), nil)
+			var vc *vconn
+			h.conns.Range(func(_, v any) bool {
+				if x := v.(*vconn); x.spec == sp {
+					vc = x
+					return false
+				}
+				return true
+			})
+			alive := vc == nil
+			if vc != nil {
+				ran := make(chan struct{})
+				if err := vc.c.EventLoop().Execute(context.Background(), RunnableFunc(func(context.Context) error { close(ran); return nil })); err == nil {
+					select {
+					case <-ran:
+						alive = true
+					case <-time.After(3 * time.Second):
+					}
+				} else {
+					alive = true // (the engine is already going down: not this scenario's business)
+				}
+			}
+			rec.emit("PeerNoClose", "c", sp.id, "loopalive", alive)
+			if !alive {
+				rep.Violation("sys/loop-stuck-in-close", fmt.Sprintf("connection %d: its peer half-closed while the answer was stuck behind a full socket and did not read; 1.2 s later the loop that owns the connection did not run a posted task within 3 s", sp.id), nil)
+			}
 		}
 	}
 	close(release)
@@ -302,7 +331,8 @@ func peerSession(rec *recorder, h *vhandler, sp *peerSpec, c net.Conn, rep *vsup
 		select {
 		case <-done:
 		case <-time.After(10 * time.Second):
-			rec.emit("PeerReadTimeout", "c", sp.id)
+			// the peer's half-close was not answered: the engine neither closed its end nor reset the connection
+			rec.emit("PeerReadTimeout", "c", sp.id, "how", "fin")
 		}
 		_ = c.Close()
 	case "close":
@@ -616,6 +646,9 @@ func runServerScenario(t *testing.T, rec *recorder, cfg *sysCfg, seed uint64, sc
 			// before the loop gets to the first event (OnOpen keeps it busy): all of it must still be delivered
 			sp := specs[i]
 			sp.total = []int{5000, 70000, 3*cfg.readCap + 1}[rng.Intn(3)]
+			if cfg.chunk > 0 && cfg.readCap > cfg.chunk {
+				sp.total = cfg.chunk + 1000 // one read takes it all: more than the chunk, less than the buffer, FIN right behind
+			}
 			sp.segs, sp.lockstep = []int{sp.total}, false
 			sp.shut = []string{"fin", "close"}[rng.Intn(2)]
 			sp.reply, sp.openOut, sp.closeAt, sp.wakes, sp.asyncW, sp.openHold = "none", -1, -1, 0, 0, 5
@@ -977,6 +1010,10 @@ func sysConfigs(rng *vsup.Rng, thorough bool) []*sysCfg {
 			cfg.et = mode != "LT"
 			if mode == "ETchunk" {
 				cfg.chunk = []int{1024, 2048, 8192}[rng.Intn(3)]
+				if network == "unix" {
+					// a read buffer larger than the chunk: one read can exceed the chunk and still be a short read
+					cfg.readCap, cfg.chunk = 65536, []int{1024, 2048}[rng.Intn(2)]
+				}
 			}
 			if network == "tcp" {
 				cfg.reuseport = rng.Intn(2) == 0
